@@ -98,8 +98,13 @@ class Rec:
         # side effect: [name of an object of the namespace, attribute, value]
         self.sets = sets
         self.target = None
+        # harness hook run before the call is recorded (e.g. a nested
+        # rendering of the template that is being rendered)
+        self.pre = None
 
     def __call__(self):
+        if self.pre is not None:
+            self.pre()
         self.world.tick(('call', self.rid))
         if self.sets and self.target is not None:
             setattr(self.target, self.sets[1], self.sets[2])
